@@ -64,12 +64,21 @@ impl<'a> World<'a> {
     pub fn judge(&mut self, opk: &'static str, ctx: &str, gotn: &str, detail: &str, ok_allowed: bool, errs: &[&'static str]) -> bool {
         let accepted = if gotn == "Ok" { ok_allowed } else { errs.contains(&gotn) };
         self.ev(&format!("{}:{}:{}", opk, ctx, gotn));
+        if self.faulty && self.disk.fired_total() > self.fired_mark {
+            // C11: a device call failed during this API call: it must report an error
+            self.fault_op = Some(self.op_idx);
+            if gotn == "Ok" {
+                self.swallowed = true;
+                self.violate("C11", "device-error-swallowed", &format!("{}:{}", opk, ctx), format!("a block-device call failed during {} but the call returned Ok; {}", opk, detail));
+            } else if gotn == "PANIC" || gotn == "HANG" {
+                let lp = self.last_panic.clone();
+                self.violate("C11", if gotn == "PANIC" { "panic-on-device-error" } else { "hang-on-device-error" }, opk, format!("{}; {}", lp, detail));
+            }
+            self.abort("fault fired");
+            return false;
+        }
         if accepted {
             return true;
-        }
-        if self.faulty && (gotn == "DeviceError") {
-            // fault engine judges these itself
-            return false;
         }
         let prop = if gotn == "PANIC" || gotn == "HANG" {
             home_prop(opk)
@@ -82,7 +91,8 @@ impl<'a> World<'a> {
         };
         let want = if ok_allowed { format!("Ok{}", if errs.is_empty() { String::new() } else { format!(" or {:?}", errs) }) } else { format!("{:?}", errs) };
         let oracle = if gotn == "PANIC" { "panic" } else if gotn == "HANG" { "hang" } else { "result" };
-        self.violate(prop, oracle, &format!("{}:{}:got={}", opk, ctx, gotn), format!("expected {}; {}", want, detail));
+        let lp = if gotn == "PANIC" || gotn == "HANG" { format!(" [{}]", self.last_panic) } else { String::new() };
+        self.violate(prop, oracle, &format!("{}:{}:got={}", opk, ctx, gotn), format!("expected {}; {}{}", want, detail, lp));
         self.abort("result mismatch");
         false
     }
@@ -198,6 +208,7 @@ impl<'a> World<'a> {
         if self.aborted.is_some() {
             return;
         }
+        self.fired_mark = self.disk.fired_total();
         let opk = op.kind();
         match op.clone() {
             Op::Clock { secs } => {
